@@ -56,10 +56,10 @@ def ob_neighbour_frame(k0: int, t0: int, g0: int, px: bool, kx: int, tx: int, gx
 
 
 @obligation(funcs=["storage.kv.planner", "storage.kv.execute_one_plan", "storage.kv.Index.scanner", "storage.kv.matcher"],
-            params=range(5), timeout=(400, 1800),
+            params=range(6), timeout=(400, 1800),
             bounds="store {e0, e1} (kinds {1,2}, created_at symbolic, one tag from 4); PARAM 0/3/4: kinds filter vs the same filter "
-                   "plus a #t condition / plus until / plus since; PARAM 1: #t filter vs plus kinds; PARAM 2: union: kinds [2,1] vs "
-                   "[2] and [1], #t [a,b] vs [a] and [b]")
+                   "plus a #t condition / plus until / plus since; PARAM 1: #t filter vs plus kinds; PARAM 2 (kinds) / 5 (tag values): union: kinds [2,1] vs "
+                   "[2] and [1], #t [a,b] vs [a] and [b], with an optional symbolic until")
 def ob_monotone_union(k0: int, t0: int, g0: int, k1: int, t1: int, g1: int, fk1: int, fv1: int, extra: int,
                       bound: int) -> str:
     """
@@ -67,8 +67,11 @@ def ob_monotone_union(k0: int, t0: int, g0: int, k1: int, t1: int, g1: int, fk1:
     pre: 0 <= g0 < 4 and 0 <= g1 < 4 and 0 <= fk1 < 2 and 0 <= fv1 < 3 and 0 <= extra < 3 and 0 <= bound <= 200
     pre: PARAM != 1 or extra == 0
     pre: PARAM not in (0, 3, 4) or extra == {0: 0, 3: 1, 4: 2}[PARAM]
-    pre: THOROUGH or PARAM == 2 or (g0 < 3 and g1 < 2 and fv1 < 2 and k1 == 0 and (extra == 0 or bound in (0, 50)))
-    pre: PARAM != 2 or (extra < 2 and bound == 0 and fk1 == 0 and fv1 == 0)
+    pre: THOROUGH or PARAM in (2, 5) or (g0 < 3 and g1 < 2 and fv1 < 2 and k1 == 0 and (extra == 0 or bound in (0, 50)))
+    pre: PARAM not in (2, 5) or (extra == (0 if PARAM == 2 else 1) and fk1 == 0 and fv1 == 0)
+    pre: PARAM != 2 or (g0 == 0 and g1 == 0)
+    pre: PARAM != 5 or (k0 == 0 and k1 == 0)
+    pre: THOROUGH or PARAM not in (2, 5) or (bound in (0, 50))
     post: _.startswith("ok")
     """
     logging.disable(logging.CRITICAL)
@@ -88,9 +91,10 @@ def ob_monotone_union(k0: int, t0: int, g0: int, k1: int, t1: int, g1: int, fk1:
         f2, q2 = E.make_filter(3, fk1, 0, False, False, fv1, 0, None, None, 10)
     else:
         shape = 0 if extra == 0 else 2
-        f, q = E.make_filter(shape, 1, 0, True, False, 0, 2, None, None, 10)       # kinds [2,1]  /  #t [a, b]
-        fa_, qa = E.make_filter(shape, 1, 0, False, False, 0, 0, None, None, 10)    # kinds [2]    /  #t [a]
-        fb_, qb = E.make_filter(shape, 0, 0, False, False, 2, 0, None, None, 10)    # kinds [1]    /  #t [b]
+        u = None if bound == 0 else bound
+        f, q = E.make_filter(shape, 1, 0, True, False, 0, 2, None, u, 10)       # kinds [2,1]  /  #t [a, b]
+        fa_, qa = E.make_filter(shape, 1, 0, False, False, 0, 0, None, u, 10)    # kinds [2]    /  #t [a]
+        fb_, qb = E.make_filter(shape, 0, 0, False, False, 2, 0, None, u, 10)    # kinds [1]    /  #t [b]
         whole = _ids(E.run_query(env, q))
         parts = sorted(set((_ids(E.run_query(env, qa)) or []) + (_ids(E.run_query(env, qb)) or [])))
         if whole != parts:
